@@ -368,7 +368,8 @@ pub fn split(s: &str) -> Result<Vec<Arg>, ParseError> {
                 Some(_) => Comment,
             },
         };
-        pos += 1;
+        // `pos` is a byte offset into `s` (it is used for slicing)
+        pos += c.map_or(1, char::len_utf8);
     }
 
     Ok(words)
